@@ -12,7 +12,9 @@ lazy_static! {
 pub(crate) fn can_be_used(lhs: &Type, rhs: &Type) -> bool {
     let lhs = lhs.clone();
     let rhs = rhs.clone();
-    var_type!((lhs, rhs)).matches(&ACCEPTED_TYPE)
+    // `!` matches every accepted operand type, but has no element type to concatenate with
+    let concatenable = lhs.element_type().is_none() || rhs.element_type().is_some();
+    concatenable && var_type!((lhs, rhs)).matches(&ACCEPTED_TYPE)
 }
 
 pub fn create_from_instructions(lhs: Instruction, rhs: Instruction) -> Instruction {
